@@ -105,6 +105,7 @@ Definition law_of (p : list tree) : option (list (Z * Q)) :=
     olet g := tlist tZ g in olet alpha := tlist tZ alpha in
     Some (tally Z.eqb (dmap code_of (umad (uniform alpha) (q_of an ad) (q_of dn dd)
                                           (if ek =? 0 then None else Some (q_of en ed)) g)))
+  | [A 14; A _; a; b]   (* the same in every argument form *)
   | [A 6; a; b] =>
     olet a := tlist tZ a in olet b := tlist tZ b in
     if Nat.eqb (length a) (length b)
